@@ -20,7 +20,7 @@ from automata.base.exceptions import InvalidStateError, SymbolMismatchError
 from automata.fa.dfa import DFA
 
 from harness import gen, langoracle
-from harness.common import Ctx, Names, Toks, call, enc_dfa, sym_names, toks
+from harness.common import guarded, Ctx, Names, Toks, call, enc_dfa, sym_names, toks
 from harness.dfaops_common import (check_valid, lang_mismatch, parse_canon, py_canon, render_block,
                                    render_pair, renderer_atoms)
 
@@ -95,6 +95,7 @@ def check_result_props(ctx, what, operands, result, spec, replay, want_complete=
     return True
 
 
+@guarded
 def do_binop(ctx: Ctx, opname: str, A: DFA, B: DFA, retain: bool, minify: bool, origin: str, use_operator=False):
     drv = ctx.driver("drv_dfa_ops")
     impl_f, spec, oper = OPS[opname]
@@ -148,6 +149,7 @@ def do_binop(ctx: Ctx, opname: str, A: DFA, B: DFA, retain: bool, minify: bool, 
         ctx.corr_diff("DFA_BINOP", replay, imp, mod)
 
 
+@guarded
 def do_complement(ctx: Ctx, A: DFA, retain: bool, minify: bool, origin: str, use_operator=False):
     drv = ctx.driver("drv_dfa_ops")
     encA, stA, sy = enc_dfa(A)
@@ -183,6 +185,7 @@ def do_complement(ctx: Ctx, A: DFA, retain: bool, minify: bool, origin: str, use
         ctx.corr_diff("DFA_COMPLEMENT", replay, imp, mod)
 
 
+@guarded
 def do_to_partial(ctx: Ctx, A: DFA, retain: bool, minify: bool, origin: str):
     drv = ctx.driver("drv_dfa_ops")
     encA, stA, sy = enc_dfa(A)
@@ -209,6 +212,7 @@ def do_to_partial(ctx: Ctx, A: DFA, retain: bool, minify: bool, origin: str):
         ctx.corr_diff("DFA_TO_PARTIAL", replay, imp, mod)
 
 
+@guarded
 def do_to_complete(ctx: Ctx, A: DFA, mode: str, origin: str):
     """mode: default | custom_fresh | custom_taken"""
     drv = ctx.driver("drv_dfa_ops")
@@ -271,6 +275,7 @@ def expr_tree(ctx: Ctx, leaves, depth: int):
     return l.to_complete(), fl, f"complete({tl})"
 
 
+@guarded
 def do_expr(ctx: Ctx, leaves, depth: int):
     ctx.stat("expression_tree")
     replay = dict(op="expression", leaves=[repr(x) for x in leaves])
@@ -300,6 +305,17 @@ def corpus():
 
 
 def run_corpus(ctx: Ctx):
+    # F21: junk row named like the trap id
+    J = DFA(states={0}, input_symbols={"a"}, transitions={0: {}, -1: {"a": 0}}, initial_state=0,
+            final_states={0}, allow_partial=True)
+    E2 = DFA(states={0}, input_symbols={"a"}, transitions={0: {"a": 0}}, initial_state=0, final_states=set())
+    for opname in OPS:
+        for r in (False, True):
+            for m in (False, True):
+                do_binop(ctx, opname, E2, J, r, m, "corpus")
+                do_binop(ctx, opname, J, E2, r, m, "corpus")
+    do_to_complete(ctx, J, "default", "corpus")
+    do_complement(ctx, J, False, False, "corpus")
     for A in corpus():
         U = DFA.universal_language(A.input_symbols)
         for r in (False, True):
